@@ -197,7 +197,7 @@ struct Case {
 /// Which implementation the model mirrors: `false` = /repo HEAD, `true` = notes/C05-fixes/01 (the select waits
 /// for its await answer). FLIP THE DEFAULT when the patch lands; `QVERIF_SELECT_WAITS=0|1` overrides it (used
 /// to run the check against a worktree that has the patch).
-const SELECT_WAITS_DEFAULT: bool = false;
+const SELECT_WAITS_DEFAULT: bool = true;
 
 fn select_waits() -> bool {
     match std::env::var("QVERIF_SELECT_WAITS").ok().as_deref() {
